@@ -106,6 +106,13 @@ func main() {
 				}
 			}
 		}
+		// targets nTargets+2 .. : ids outside the 48-bit identifier space that share their low 48 bits with target t
+		// (index nTargets+1+(m-1)*nTargets+t carries m<<48 | id of t, m = 1..3): nobody registered for them
+		for m := 1; m <= 3; m++ {
+			for t := 1; t <= nTargets; t++ {
+				ids[nTargets+1+(m-1)*nTargets+t] = uint64(m)<<48 | ids[t]
+			}
+		}
 		chordT := &stubTransport{ch: make(chan *transport.StreamDelegate)}
 		tunT := &stubTransport{ch: make(chan *transport.StreamDelegate)}
 		router := transport.NewStreamRouter(logger, chordT, tunT)
@@ -140,12 +147,12 @@ func main() {
 		router.Accept(ctx)
 
 		var inc []incoming
-		for k := 1; k <= nTypes; k++ {
-			for t := 1; t <= nTargets+1; t++ {
+		for k := 1; k <= nTypes+1; k++ { // nTypes+1: a stream type nobody registers
+			for t := 1; t <= 4*nTargets+1; t++ {
 				inc = append(inc, incoming{Src: "chord", Kind: k, Target: t})
 			}
 		}
-		for k := 1; k <= nTypes; k++ {
+		for k := 1; k <= nTypes+1; k++ {
 			inc = append(inc, incoming{Src: "tunnel", Kind: k, Target: nTargets + 1})
 		}
 		order := r.Perm(len(inc))
